@@ -265,10 +265,13 @@ pub fn encode_module(version: u32, generator: u32, bound: u32, insts: &[AInst], 
 }
 
 pub fn random_version(rng: &mut Rng) -> u32 {
-    match rng.below(4) {
+    match rng.below(6) {
         0 => 0x0001_0000,
         1 => 0x0001_0600,
         2 => crate::gram::version_word(rng.below(256) as u8, rng.below(256) as u8),
+        // versions the pinned grammar does not know yet: later minor and major versions
+        3 => crate::gram::version_word(1, *rng.pick(&[7u8, 8, 9, 10, 15, 16, 127, 128, 255])),
+        4 => crate::gram::version_word(*rng.pick(&[0u8, 2, 3, 255]), rng.below(8) as u8),
         _ => crate::gram::version_word(1, rng.below(7) as u8),
     }
 }
